@@ -80,13 +80,14 @@ func init() {
 
 	register(&Property{
 		ID:          "C12",
-		Patterns:    []string{pkgAst, pkgNs, pkgOpl},
+		Patterns:    []string{pkgAst, pkgNs, pkgOpl, pkgKetoapi},
 		HarnessDirs: []string{"internal/schema"},
 		Runs: func(tier string) []Run {
 			return []Run{
 				{Name: "lexer-bytes", Pkg: pkgSchema, Harness: "HarnessC12Lexer", Params: map[string]int64{"n": pick(tier, 3, 5), "alphabet": 0}, Reach: []string{"c12.lexer.eof", "c12.lexer.error"}},
 				{Name: "parse-bytes", Pkg: pkgSchema, Harness: "HarnessC12ParseBytes", Params: map[string]int64{"n": pick(tier, 3, 4), "alphabet": 0}, Reach: []string{"c12.parse.accepted", "c12.parse.rejected"}},
 				{Name: "error-rendering", Pkg: pkgSchema, Harness: "HarnessC12ErrorRendering", Params: map[string]int64{"n": pick(tier, 3, 5)}, Reach: []string{"c12.render"}},
+				{Name: "endpoints-agree", Pkg: pkgSchema, Harness: "HarnessC12Endpoints", Params: map[string]int64{"n": pick(tier, 3, 4), "alphabet": 1}, Overrides: map[string]string{"io.ReadAll": "verifReadAll"}, Reach: []string{"c12.endpoints"}},
 				{Name: "pumped-lexemes", Pkg: pkgSchema, Harness: "HarnessC12Pump", Params: map[string]int64{}, Reach: []string{"c12.pump.returned"}},
 				{Name: "parser-tokens", Pkg: pkgSchema, Harness: "HarnessC12ParserTokens", Params: map[string]int64{"L": pick(tier, 4, 6)}, Overrides: map[string]string{"(*github.com/ory/keto/internal/schema.lexer).nextNonCommentItem": "verifNextToken12"}, Reach: []string{"c12.tokens.done"}, Budget: time.Duration(pick(tier, 240, 1800)) * time.Second},
 			}
@@ -96,6 +97,7 @@ func init() {
 				"lexer":           "every byte string of length 0.." + itoa(pick(tier, 3, 5)) + " (all 256 byte values, symbolic)",
 				"parse":           "every byte string of length 0.." + itoa(pick(tier, 3, 4)) + " through Parse and error rendering",
 				"error rendering": "inputs of length 0.." + itoa(pick(tier, 3, 5)) + " over {\\n,' ',a,\\t,0xC3,0xA9,0xFF}, every 0 <= Start <= End <= len",
+				"endpoints":       "REST and gRPC syntax check on every byte string of length 0.." + itoa(pick(tier, 3, 4)) + " over printable ASCII, blanks, newlines and multi-byte/invalid UTF-8 bytes: same error count and positions as the parser on the submitted document",
 				"pumped lexemes":  "46 lexemes (every single-rune token, operators, identifiers, keywords, string and comment openers, invalid bytes, small token groups) x repetition 19, 20, 21, 22, 41, 64 x separator {none, blank, newline} x 3 prefixes x 3 suffixes, concrete text through the real lexer (items channel of capacity 20) and parser",
 				"parser tokens":   "every token sequence of length <= " + itoa(pick(tier, 4, 6)) + " over the token alphabet after 'class N implements Namespace {' (viable prefixes, by forking)",
 			}
@@ -230,13 +232,16 @@ func init() {
 		Assumptions: append(append([]string{}, engineAssumptions...), sqlAssumptions...),
 		Outside:     append([]string{"batch handlers' mapping of Membership to 'allowed' (covered with the transports, C08)"}, engineOutside...),
 		Bounds: func(tier string) map[string]interface{} {
-			return map[string]interface{}{"rows": pick(tier, 1, 2), "objects": 2, "failing call": "symbolic k over every storage call position of the fault-free run (+2), transient or persistent (symbolic flag)", "configurations": "operator set (quick) / every operator pair (thorough), both modes",
+			return map[string]interface{}{"rows": itoa(pick(tier, 1, 2)) + " (traversal configurations: 2)", "objects": 2, "failing call": "symbolic k over every storage call position of the fault-free run (+2), transient or persistent (symbolic flag)", "configurations": "operator set (quick) / every operator pair (thorough), both modes",
 				"sql layer": "GetRelationTuples / ExistsRelationTuples / TraverseSubjectSetExpansion / TraverseSubjectSetRewrite of the real persister on an arbitrary model table of " + itoa(pick(tier, 2, 3)) + " rows, the 1st, 2nd or 3rd database operation of the call failing"}
 		},
-		NoReplay:    map[string]string{"HarnessC03": "the fault is injected into the storage model; the real persister has no fault hook (the counterexample is reported with the symbolic trace)", "HarnessC03SQLFaults": "fault injection at the pop boundary of the database model"},
+		NoReplay: map[string]string{"HarnessC03": "the fault is injected into the storage model; the real persister has no fault hook (the counterexample is reported with the symbolic trace)", "HarnessC03SQLFaults": "fault injection at the pop boundary of the database model"},
 		Runs: func(tier string) []Run {
 			a := engineRun("fault-at-k", "HarnessC03", map[string]int64{"family": pick(tier, 4, 1), "K": pick(tier, 1, 2), "objs": 2, "G": 12, "W": 64, "alts": 2, "setSubjects": 0})
 			a.Reach = []string{"c03.fault-injected"}
+			// traversals need two rows to succeed: the traversal configurations with K = 2 in the quick tier as well
+			a2 := engineRun("fault-at-k-traversals-two-rows", "HarnessC03", map[string]int64{"family": 5, "K": 2, "objs": 2, "G": 12, "W": 64, "alts": 2, "setSubjects": 0, "modes": pick(tier, 1, 0)})
+			a2.Reach = []string{"c03.fault-injected"}
 			// Lemma PF: a failing database operation inside one read call of the real SQL layer surfaces as an error
 			ov := map[string]string{}
 			for k, v := range dbOverrides {
@@ -245,19 +250,20 @@ func init() {
 			ov["(*github.com/ory/keto/internal/driver/config.Config).StrictMode"] = "dbCfgStrictMode"
 			ov["(*github.com/ory/keto/internal/driver/config.Config).NamespaceManager"] = "dbCfgNamespaceManager"
 			b := Run{Name: "lemma-PF-sql-read-calls-propagate-database-errors", Pkg: pkgSQL, Harness: "HarnessC03SQLFaults", Params: map[string]int64{"K": pick(tier, 2, 3)}, Overrides: ov, Reach: []string{"c03.sql.returned", "c03.sql.fault-hit"}}
-			return []Run{a, b}
+			return []Run{a, a2, b}
 		},
 	})
 }
 
 func init() {
 	register(&Property{
-		ID:          "C15",
-		Patterns:    enginePatterns,
-		HarnessDirs: []string{"internal/check/zzverif"},
-		ReplayTags:  "sqlite",
-		Assumptions: engineAssumptions,
-		Outside:     append([]string{"cancellation instants other than 'before the call' and 'inside storage call c'", "real-time promptness (only 'returns' is decided)"}, engineOutside...),
+		ID:           "C15",
+		RepeatNative: true,
+		Patterns:     enginePatterns,
+		HarnessDirs:  []string{"internal/check/zzverif"},
+		ReplayTags:   "sqlite",
+		Assumptions:  engineAssumptions,
+		Outside:      append([]string{"cancellation instants other than 'before the call' and 'inside storage call c'", "real-time promptness (only 'returns' is decided)"}, engineOutside...),
 		Runs: func(tier string) []Run {
 			mk := func(name string, fam, k, g int64) Run {
 				r := engineRun(name, "HarnessC15", map[string]int64{"family": fam, "K": k, "objs": 2, "G": g, "maxCalls": pick(tier, 6, 10)})
@@ -339,7 +345,7 @@ func init() {
 				dialects = []int64{0, 1, 2, 3}
 			}
 			for _, d := range dialects {
-				m := sqlRun("sql-mapping-dialect-"+itoa(d), "HarnessC16SQLMapping", map[string]int64{"nmax": pick(tier, 3, 4), "pool": pick(tier, 4, 6), "dialect": d})
+				m := sqlRun("sql-mapping-dialect-"+itoa(d), "HarnessC16SQLMapping", map[string]int64{"nmax": pick(tier, 3, 4), "pool": pick(tier, 4, 7), "dialect": d})
 				m.MapOrder = true
 				m.Reach = []string{"c16.sql.roundtrip", "c16.sql.read"}
 				runs = append(runs, m)
@@ -356,7 +362,7 @@ func init() {
 		},
 		Bounds: func(tier string) map[string]interface{} {
 			return map[string]interface{}{"batch size": "0.." + itoa(pick(tier, 2, 3)), "names": "opaque symbolic strings (any length and content) with arbitrary equalities among them", "query shapes": "all 2^3 x 3", "trees": "3-4 nodes",
-				"sql mapping": "batches of 1.." + itoa(pick(tier, 3, 4)) + " positions over a pool of " + itoa(pick(tier, 4, 6)) + " adversarial names with repeats; table = any subset of the pool's mappings of two networks (symbolic presence); lookup page 1, 2, 3 or default; write+read and read-only; dialects " + map[bool]string{false: "sqlite3, mysql", true: "sqlite3, postgres, cockroach, mysql"}[tier == "thorough"],
+				"sql mapping": "batches of 1.." + itoa(pick(tier, 3, 4)) + " positions over a pool of " + itoa(pick(tier, 4, 7)) + " adversarial names (empty, NUL bytes, case, Unicode normal forms, blanks) with repeats; table = any subset of the pool's mappings of two networks (symbolic presence); lookup page 1, 2, 3 or default; write+read and read-only; dialects " + map[bool]string{false: "sqlite3, mysql", true: "sqlite3, postgres, cockroach, mysql"}[tier == "thorough"],
 				"sql large":   "99..102 distinct names (thorough also 149, 199, 249) x {no repeats, first repeated 3x at the end, all twice interleaved, all twice block-wise} x {empty table, every other mapping present}, default lookup page 100"}
 		},
 	})
@@ -397,7 +403,7 @@ func init() {
 			exOv := map[string]string{
 				"(*github.com/ory/keto/internal/driver/config.Config).NamespaceManager": "verifHCfgNamespaceManager",
 				"(*github.com/ory/keto/internal/driver/config.Config).MaxReadDepth":     "verifHCfgMaxReadDepth",
-				"(*net/url.URL).Query":                                                  "verifURLQuery",
+				"(*net/url.URL).Query": "verifURLQuery",
 			}
 			e := Run{Name: "expand", Pkg: "github.com/ory/keto/internal/expand", Harness: "HarnessC13Expand", Params: map[string]int64{}, Overrides: exOv, Reach: []string{"c13.expand.grpc", "c13.expand.rest"}}
 			f := sqlRun("sql-list-any-page-size", "HarnessC13PageSize", map[string]int64{"K": pick(tier, 2, 3)})
@@ -429,10 +435,11 @@ func init() {
 	register(&Property{
 		ID:            "C17",
 		OnlyMsgPrefix: "C17:",
-		Patterns:    append([]string{"github.com/ory/keto/internal/driver"}, c13.Patterns...),
-		HarnessDirs: []string{"internal/check", "internal/relationtuple", "internal/expand", "internal/driver"},
-		Assumptions: []string{"storage = recording stubs of relationtuple.Manager and MappingManager: any call of a writing method (WriteRelationTuples, DeleteRelationTuples, DeleteAllRelationTuples, TransactRelationTuples, MapStringsToUUIDs) or of the writing Mapper() from a read handler is the violation", "requests: arbitrary inhabitants of the request types as in C13, names known and never seen before (opaque strings)"},
-		Outside:     []string{"the SQL statements below the Manager/MappingManager interfaces (a read method of the persister that writes)", "route registration (which router a handler is mounted on)", "the syntax API (touches no storage interface at all)"},
+		NoReplay:      map[string]string{"HarnessC17Servers": "grpc.NewServer and the generated Register*ServiceServer functions are replaced by recording stubs, which exist only under the executor"},
+		Patterns:      append([]string{"github.com/ory/keto/internal/driver", "github.com/ory/keto/internal/namespace/namespacehandler", pkgSchema, pkgOpl}, c13.Patterns...),
+		HarnessDirs:   []string{"internal/check", "internal/relationtuple", "internal/expand", "internal/driver"},
+		Assumptions:   []string{"storage = recording stubs of relationtuple.Manager and MappingManager: any call of a writing method (WriteRelationTuples, DeleteRelationTuples, DeleteAllRelationTuples, TransactRelationTuples, MapStringsToUUIDs) or of the writing Mapper() from a read handler is the violation", "requests: arbitrary inhabitants of the request types as in C13, names known and never seen before (opaque strings)"},
+		Outside:       []string{"the SQL statements below the Manager/MappingManager interfaces (a read method of the persister that writes)", "REST route registration (which router a handler is mounted on; the router types keep read and write routes apart at compile time)", "the syntax API (touches no storage interface at all)"},
 		Runs: func(tier string) []Run {
 			var out []Run
 			for _, r := range c13.Runs(tier) {
@@ -443,6 +450,22 @@ func init() {
 				out = append(out, r)
 			}
 			out = append(out, Run{Name: "registry-mappers", Pkg: "github.com/ory/keto/internal/driver", Harness: "HarnessC17RegistryMappers", Params: map[string]int64{}, Reach: []string{"c17.registry"}})
+			rtsPkg := "github.com/ory/keto/proto/ory/keto/relation_tuples/v1alpha2."
+			out = append(out, Run{Name: "grpc-servers-expose-their-own-services", Pkg: "github.com/ory/keto/internal/driver", Harness: "HarnessC17Servers", Params: map[string]int64{}, Reach: []string{"c17.servers.read", "c17.servers.write", "c17.servers.syntax"},
+				Overrides: map[string]string{
+					"(*github.com/ory/keto/internal/driver.RegistryDefault).newGrpcServer": "verifNewGrpcServer",
+					"(*github.com/ory/keto/internal/driver.RegistryDefault).HealthServer":  "verifHealthServer",
+					"google.golang.org/grpc/health/grpc_health_v1.RegisterHealthServer":    "verifRegHealth",
+					"google.golang.org/grpc/reflection.Register":                          "verifRegReflection",
+					"(*github.com/ory/x/prometheusx.MetricsManager).Register":             "verifPmmRegister",
+					rtsPkg + "RegisterVersionServiceServer":                                "verifRegVersion",
+					rtsPkg + "RegisterReadServiceServer":                                   "verifRegRead",
+					rtsPkg + "RegisterWriteServiceServer":                                  "verifRegWrite",
+					rtsPkg + "RegisterCheckServiceServer":                                  "verifRegCheck",
+					rtsPkg + "RegisterExpandServiceServer":                                 "verifRegExpand",
+					rtsPkg + "RegisterNamespacesServiceServer":                             "verifRegNamespaces",
+					"github.com/ory/keto/proto/ory/keto/opl/v1alpha1.RegisterSyntaxServiceServer": "verifRegSyntax",
+				}})
 			return out
 		},
 	})
@@ -470,9 +493,9 @@ func init() {
 	register(&Property{
 		ID:          "C14",
 		Patterns:    append([]string{"github.com/ory/keto/internal/driver", "github.com/ory/keto/internal/expand"}, enginePatterns...),
-		HarnessDirs: []string{"internal/check/zzverif", "internal/driver"},
+		HarnessDirs: []string{"internal/check/zzverif", "internal/driver", "internal/driver/config"},
 		ReplayTags:  "sqlite",
-		NoReplay:    map[string]string{"HarnessC14RegistryInit": "data races are decided by the executor's happens-before analysis; the native race detector is not part of this family", "HarnessC14Isolation": "schedule-dependent: the native scheduler cannot be forced"},
+		NoReplay:    map[string]string{"HarnessC14ConfigNamespaceManager": "data races are decided by the executor's happens-before analysis", "HarnessC14RegistryInit": "data races are decided by the executor's happens-before analysis; the native race detector is not part of this family", "HarnessC14Isolation": "schedule-dependent: the native scheduler cannot be forced"},
 		Assumptions: append([]string{"happens-before = the executor's vector clocks over its models of go, channels, select, mutexes, Once, WaitGroup, atomics and context; a race = two conflicting accesses to the same interpreted memory cell by different goroutines that are unordered on an explored path", "configurations without && and ! (their answers are schedule-dependent on their own, see F7)"}, engineAssumptions...),
 		Outside:     append([]string{"reports of the Go race detector on the real runtime", "schedules beyond delay bound 1", "more than two concurrent requests"}, engineOutside...),
 		Runs: func(tier string) []Run {
@@ -482,12 +505,14 @@ func init() {
 			a.Race = true
 			a.Reach = []string{"c14.concurrent"}
 			b := Run{Name: "registry-lazy-init", Pkg: "github.com/ory/keto/internal/driver", Harness: "HarnessC14RegistryInit", Params: map[string]int64{}, Delay: 1, Race: true, Reach: []string{"c14.registry"}}
+			cfgRun := Run{Name: "config-namespace-manager", Pkg: "github.com/ory/keto/internal/driver/config", Harness: "HarnessC14ConfigNamespaceManager", Params: map[string]int64{}, Delay: 2, Race: true,
+				Overrides: map[string]string{"(*github.com/ory/keto/internal/driver/config.Config).namespaceConfig": "verifNamespaceConfig"}, Reach: []string{"c14.config"}}
 			c := engineRun("batch-entries-vs-alone", "HarnessC14Batch", map[string]int64{"family": 0, "K": 3, "objs": 2, "shapes": pick(tier, 1, 0), "modes": pick(tier, 1, 0)})
 			c.Reach = []string{"c14.batch"}
-			return []Run{a, b, c}
+			return []Run{a, b, c, cfgRun}
 		},
 		Bounds: func(tier string) map[string]interface{} {
-			return map[string]interface{}{"requests": 2, "rows": 1, "batch": "2 entries (the same relationship twice, or two different ones) over 3 symbolic rows, 2 objects, delay bound 0", "delay bound": 1, "configurations": []string{"schemaless, default mode", "plain / schemaless / subject-set typed, both modes"}[pick(tier, 0, 1)]}
+			return map[string]interface{}{"requests": 2, "rows": 1, "config": "two concurrent NamespaceManager() calls on a fresh Config, and two calls concurrent with a namespace reload, delay bound 2", "batch": "2 entries (the same relationship twice, or two different ones) over 3 symbolic rows, 2 objects, delay bound 0", "delay bound": 1, "configurations": []string{"schemaless, default mode", "plain / schemaless / subject-set typed, both modes"}[pick(tier, 0, 1)]}
 		},
 	})
 }
@@ -532,12 +557,12 @@ func init() {
 		Assumptions: sqlAssumptions,
 		Outside:     []string{"histories are covered by one inductive step from an arbitrary table, not by enumerating sequences", "the REST/gRPC write handlers on top (mapping + transaction wrapper: C13/C16)", "more rows than K, names outside the pools"},
 		Runs: func(tier string) []Run {
-			r := sqlRun("one-step-from-arbitrary-table", "HarnessC04", map[string]int64{"K": pick(tier, 2, 3), "small": pick(tier, 1, 0)})
+			r := sqlRun("one-step-from-arbitrary-table", "HarnessC04", map[string]int64{"K": pick(tier, 2, 3), "small": pick(tier, 1, 0), "emptyRel": 1})
 			r.Reach = []string{"c04.written", "c04.listed"}
 			return []Run{r}
 		},
 		Bounds: func(tier string) map[string]interface{} {
-			return map[string]interface{}{"rows": pick(tier, 2, 3), "operation": "create 1..2 | delete 1..2 | delete-by-query (16 shapes) | transact 1+1", "query": "all 2^4 nil/non-nil shapes", "networks": 2}
+			return map[string]interface{}{"rows": pick(tier, 2, 3), "operation": "create 1..2 | delete 1..2 | delete-by-query (16 shapes) | transact 1+1", "query": "all 2^4 nil/non-nil shapes", "networks": 2, "names": "2 namespaces, 3 objects, relations r, s; subject sets also with the empty relation (in requests and, symbolically, in rows)"}
 		},
 	})
 }
@@ -600,11 +625,15 @@ func init() {
 			a := sqlRun("write-and-list", "HarnessC04", map[string]int64{"K": pick(tier, 2, 3), "small": 0})
 			a.Reach = []string{"c04.written", "c04.listed"}
 			b := Run{Name: "traversals", Pkg: pkgSQL, Harness: "HarnessC06Traverse", Params: map[string]int64{"K": pick(tier, 2, 3)}, Overrides: ov, Reach: []string{"c06.expansion", "c06.rewrite"}}
-			return []Run{a, b}
+			// the caller's network comes from the request context (contextualizer), the persister was created for the other network
+			c := sqlRun("write-and-list-network-from-context", "HarnessC04", map[string]int64{"K": pick(tier, 1, 2), "small": pick(tier, 1, 0), "ctxNet": 1})
+			c.Reach = []string{"c04.written", "c04.listed"}
+			d := Run{Name: "traversals-network-from-context", Pkg: pkgSQL, Harness: "HarnessC06Traverse", Params: map[string]int64{"K": 2, "ctxNet": 1}, Overrides: ov, Reach: []string{"c06.expansion", "c06.rewrite"}}
+			return []Run{a, b, c, d}
 		},
 		OnlyMsgPrefix: "",
 		Bounds: func(tier string) map[string]interface{} {
-			return map[string]interface{}{"rows": pick(tier, 2, 3), "networks": 2, "operations": "create / delete / delete-by-query / transact under network A; list, exists, subject-set expansion and rewrite traversal under network A"}
+			return map[string]interface{}{"rows": pick(tier, 2, 3), "networks": 2, "operations": "create / delete / delete-by-query / transact under network A; list, exists, subject-set expansion and rewrite traversal under network A; the same with the network taken from the request context by a contextualizer while the persister was created for network B"}
 		},
 	})
 }
